@@ -498,7 +498,7 @@ fn check_program(p: &Prog, rng: &mut Rng, quick: bool, rep: &mut Report, only: O
 }
 
 pub fn run(ctx: &Ctx) -> Report {
-    let n = ctx.size(5_000, 60_000) as usize;
+    let n = ctx.size(15_000, 60_000) as usize;
     let quick = ctx.quick();
     par_items(ctx.threads, n, ctx.seed, move |i, seed, rep| {
         let mut rng = Rng::new(seed);
